@@ -887,6 +887,38 @@ def corrupt(case, obs):
     return bad
 
 
+def shrink(case):
+    """Few, well-chosen candidates per round (the verdict is monotone in the prefix: a history that fails at
+    step k fails for every prefix containing k): prefixes first, then dropping a quarter / an eighth / one op."""
+    ops = case["ops"]
+    n = len(ops)
+    if n <= 1:
+        return
+    seen = set()
+
+    def cand(new_ops):
+        key = repr(new_ops)
+        if new_ops and len(new_ops) < n and key not in seen:
+            seen.add(key)
+            c = dict(case)
+            c["ops"] = new_ops
+            return c
+        return None
+    out = []
+    for m in (n // 4, n // 2, (3 * n) // 4, n - 1):
+        out.append(cand(ops[:m]))
+    for parts in (4, 8):
+        size = max(1, n // parts)
+        for s in range(0, n, size):
+            out.append(cand(ops[:s] + ops[s + size:]))
+    if n <= 12:
+        for s in range(n):
+            out.append(cand(ops[:s] + ops[s + 1:]))
+    for c in out:
+        if c is not None:
+            yield c
+
+
 POSITIONAL = ("get", "slice", "index", "snap", "pop")
 
 
